@@ -1,3 +1,4 @@
+#include <cerrno>
 #include "world.h"
 #include <cstring>
 #include <cstdarg>
@@ -18,6 +19,7 @@ static const char *act_name(Fault::Act a) {
   case Fault::DUP: return "dup";
   case Fault::DELAY: return "delay";
   case Fault::CORRUPT: return "corrupt";
+  case Fault::SENDERR: return "senderr";
   }
   return "?";
 }
@@ -32,7 +34,7 @@ void from_json(const json &j, Fault &f) {
   sscanf(l.c_str(), "%d>%d", &f.from, &f.to);
   f.idx = j.value("idx", 0);
   std::string a = j.value("act", "drop");
-  f.act = a == "dup" ? Fault::DUP : a == "delay" ? Fault::DELAY : a == "corrupt" ? Fault::CORRUPT : Fault::DROP;
+  f.act = a == "dup" ? Fault::DUP : a == "delay" ? Fault::DELAY : a == "corrupt" ? Fault::CORRUPT : a == "senderr" ? Fault::SENDERR : Fault::DROP;
   f.n = j.value("n", 1);
   if (j.contains("delay_us")) f.delay_us = j["delay_us"].get<std::vector<int64_t>>();
   f.byte = j.value("byte", 0);
@@ -416,6 +418,15 @@ void World::on_datagram(const simk::Datagram &d, int from) {
     mix_wire(tr, now_us(), 5, from, to, idx, 0, Bytes());
     if (trace_wire) tr.line(now_us(), "drop %d>%d #%d", from, to, idx);
     for (auto &t : taps) t(dv);
+    break;
+  }
+  case Fault::SENDERR: {
+    // the attempt is visible to the monitors (SEND then DROP: the library tried at this instant), the caller gets -1/ENOBUFS
+    WireEv dv{WireEv::DROP, now(), &d, from, to, idx, 0};
+    mix_wire(tr, now_us(), 6, from, to, idx, 0, Bytes());
+    if (trace_wire) tr.line(now_us(), "send-error %d>%d #%d (ENOBUFS)", from, to, idx);
+    for (auto &t : taps) t(dv);
+    simk::K().pending_send_errno = ENOBUFS;
     break;
   }
   case Fault::DELAY:
